@@ -79,9 +79,15 @@ func BuildStaticWeightList(endpoints []endpoint.Endpoint) []int {
 
 	var weightToId []pair
 	idToWeight := map[int]int{}
+	if totalCapacity < 0 {
+		totalCapacity = 0
+	}
 	staticWeightRouterCache := make([]int, 0, totalCapacity+100)
 	for idx, node := range endpoints {
-		weight := int(node.Weight) * maxRange / maxWeight
+		weight := 0
+		if maxWeight > 0 {
+			weight = int(node.Weight) * maxRange / maxWeight
+		}
 		if weight > 0 {
 			totalWeight += weight
 			idToWeight[idx] = weight
